@@ -185,7 +185,6 @@ func init() {
 			return -1
 		}
 		uniF, ownF, peerF := -1, -1, -1
-		rwFromConfig := false
 		for _, st := range nfc.Body.List {
 			switch x := st.(type) {
 			case *ast.AssignStmt:
@@ -215,14 +214,97 @@ func init() {
 						peerF = get(eb)
 					}
 				}
-			case *ast.ReturnStmt:
-				if len(x.Results) == 1 {
-					if ce, ok := x.Results[0].(*ast.CallExpr); ok && exprText(ce.Fun) == "flowcontrol.NewStreamFlowController" && len(ce.Args) >= 5 {
-						rwFromConfig = exprText(ce.Args[2]) == "protocol.ByteCount(c.config.InitialStreamReceiveWindow)" &&
-							exprText(ce.Args[3]) == "protocol.ByteCount(c.config.MaxStreamReceiveWindow)" &&
-							exprText(ce.Args[4]) == "initialSendWindow" && exprText(ce.Args[1]) == "c.connFlowController"
+			}
+		}
+		// the receive side: which expressions reach NewStreamFlowController as receiveWindow / maxReceiveWindow. The
+		// arguments may be the Config expressions themselves or local variables initialised with them; a spec-driven
+		// client overrides them inside `if a := c.uAdvertisedStreamData; a != nil { rw = a.forStream(id, c.perspective);
+		// maxrw = max(maxrw, rw) }`. Local variable names are irrelevant.
+		var nsfc *ast.CallExpr
+		ast.Inspect(nfc.Body, func(n ast.Node) bool {
+			if ce, ok := n.(*ast.CallExpr); ok && exprText(ce.Fun) == "flowcontrol.NewStreamFlowController" && len(ce.Args) >= 5 {
+				nsfc = ce
+			}
+			return true
+		})
+		rwFromConfig := false
+		specOverride := false
+		if nsfc != nil {
+			// definitions (`x := e`) and later assignments (`x = e`) of local variables, with the enclosing if-condition
+			type asg struct {
+				rhs  ast.Expr
+				cond *ast.IfStmt
+			}
+			defs := map[string]ast.Expr{}
+			later := map[string][]asg{}
+			var walk func(list []ast.Stmt, cond *ast.IfStmt)
+			walk = func(list []ast.Stmt, cond *ast.IfStmt) {
+				for _, st := range list {
+					switch x := st.(type) {
+					case *ast.AssignStmt:
+						if len(x.Lhs) != len(x.Rhs) {
+							continue
+						}
+						for i := range x.Lhs {
+							id, ok := x.Lhs[i].(*ast.Ident)
+							if !ok {
+								continue
+							}
+							if x.Tok == token.DEFINE && cond == nil {
+								defs[id.Name] = x.Rhs[i]
+							} else {
+								later[id.Name] = append(later[id.Name], asg{x.Rhs[i], cond})
+							}
+						}
+					case *ast.IfStmt:
+						walk(x.Body.List, x)
+						if eb, ok := x.Else.(*ast.BlockStmt); ok {
+							walk(eb.List, x)
+						}
 					}
 				}
+			}
+			walk(nfc.Body.List, nil)
+			resolve := func(e ast.Expr) (string, string) { // (variable name or "", defining expression text)
+				if id, ok := e.(*ast.Ident); ok {
+					if d, ok := defs[id.Name]; ok {
+						return id.Name, exprText(d)
+					}
+				}
+				return "", exprText(e)
+			}
+			rwVar, rwDef := resolve(nsfc.Args[2])
+			mxVar, mxDef := resolve(nsfc.Args[3])
+			rwFromConfig = rwDef == "protocol.ByteCount(c.config.InitialStreamReceiveWindow)" &&
+				mxDef == "protocol.ByteCount(c.config.MaxStreamReceiveWindow)" &&
+				exprText(nsfc.Args[4]) == "initialSendWindow" && exprText(nsfc.Args[1]) == "c.connFlowController"
+			nLater := len(later[rwVar]) + len(later[mxVar])
+			if rwVar == "" {
+				nLater = len(later[mxVar])
+			}
+			if rwVar != "" && mxVar != "" && len(later[rwVar]) == 1 && len(later[mxVar]) == 1 {
+				a, b := later[rwVar][0], later[mxVar][0]
+				// same `if <v> := c.uAdvertisedStreamData; <v> != nil` (or `if c.uAdvertisedStreamData != nil`)
+				guardOK := false
+				recv := ""
+				if a.cond != nil && a.cond == b.cond {
+					ct := exprText(a.cond.Cond)
+					if ct == "c.uAdvertisedStreamData != nil" {
+						guardOK, recv = true, "c.uAdvertisedStreamData"
+					} else if in, ok := a.cond.Init.(*ast.AssignStmt); ok && len(in.Lhs) == 1 && len(in.Rhs) == 1 &&
+						exprText(in.Rhs[0]) == "c.uAdvertisedStreamData" && ct == exprText(in.Lhs[0])+" != nil" {
+						guardOK, recv = true, exprText(in.Lhs[0])
+					}
+				}
+				bt := exprText(b.rhs)
+				if guardOK && exprText(a.rhs) == recv+".forStream(id, c.perspective)" &&
+					(bt == "max("+mxVar+", "+rwVar+")" || bt == "max("+rwVar+", "+mxVar+")") {
+					specOverride = true
+					nLater = 0
+				}
+			}
+			if nLater != 0 {
+				return fmt.Errorf("Conn.newFlowController: the receive window handed to NewStreamFlowController is reassigned in a way the extractor does not know (expected only `if a := c.uAdvertisedStreamData; a != nil { rw = a.forStream(id, c.perspective); maxrw = max(maxrw, rw) }`)")
 			}
 		}
 		if uniF < 0 || ownF < 0 || peerF < 0 {
@@ -235,8 +317,12 @@ func init() {
 		w.P("def newFCOwnBidiField : Nat := %d", ownF)
 		w.P("/-- … of a bidirectional stream the peer opened -/")
 		w.P("def newFCPeerBidiField : Nat := %d", peerF)
-		w.P("/-- `newFlowController` passes `c.connFlowController`, `config.InitialStreamReceiveWindow`, `config.MaxStreamReceiveWindow`, `initialSendWindow` to NewStreamFlowController -/")
+		w.P("/-- `newFlowController` passes `c.connFlowController`, `config.InitialStreamReceiveWindow`, `config.MaxStreamReceiveWindow` (directly or")
+		w.P("    through local variables initialised with them), `initialSendWindow` to NewStreamFlowController -/")
 		w.P("def newFCReceiveWindowFromConfig : Bool := %v", rwFromConfig)
+		w.P("/-- … and, when `c.uAdvertisedStreamData != nil` (a spec-driven client), replaces the receive window by")
+		w.P("    `uAdvertisedStreamData.forStream(id, c.perspective)` and the maximum by `max(maximum, that)` -/")
+		w.P("def newFCSpecOverride : Bool := %v", specOverride)
 
 		// connection.go: every wire.TransportParameters literal advertises config.InitialStreamReceiveWindow for all three
 		// stream kinds and config.InitialConnectionReceiveWindow as initial_max_data
@@ -338,6 +424,12 @@ func init() {
 			}
 			lhs := exprText(as.Lhs[0])
 			outer, args := fn(as.Rhs[0])
+			if lhs == "c.InitialConnectionReceiveWindow" && outer == "id" && len(args) == 1 &&
+				strings.HasSuffix(exprText(args[0]), ".InitialMaxData") {
+				// `c.InitialConnectionReceiveWindow = uint64(p.InitialMaxData)`: exactly the advertised value
+				covers[lhs] = cover{outer: "id", self: true, fields: []int{3}}
+				continue
+			}
 			if !strings.HasPrefix(lhs, "c.") || len(args) != 2 {
 				continue
 			}
@@ -380,8 +472,8 @@ func init() {
 		sw, cw := covers["c.InitialStreamReceiveWindow"], covers["c.InitialConnectionReceiveWindow"]
 		msw, mcw := covers["c.MaxStreamReceiveWindow"], covers["c.MaxConnectionReceiveWindow"]
 		if !sw.self || !cw.self || !has(sw, 0, 1, 2) || !has(cw, 3) || (sw.outer != "max" && sw.outer != "min") ||
-			(sw.inner != "max" && sw.inner != "min") || (cw.outer != "max" && cw.outer != "min") {
-			return fmt.Errorf("configCoveringAdvertised no longer has the shape `c.InitialStreamReceiveWindow = f(c.InitialStreamReceiveWindow, uint64(g(p.BidiLocal, p.BidiRemote, p.Uni)))`, `c.InitialConnectionReceiveWindow = f(c.InitialConnectionReceiveWindow, uint64(p.InitialMaxData))` (got %+v %+v)", sw, cw)
+			(sw.inner != "max" && sw.inner != "min") || (cw.outer != "max" && cw.outer != "min" && cw.outer != "id") {
+			return fmt.Errorf("configCoveringAdvertised no longer has the shape `c.InitialStreamReceiveWindow = f(c.InitialStreamReceiveWindow, uint64(g(p.BidiLocal, p.BidiRemote, p.Uni)))`, `c.InitialConnectionReceiveWindow = uint64(p.InitialMaxData)` or `= f(c.InitialConnectionReceiveWindow, uint64(p.InitialMaxData))` (got %+v %+v)", sw, cw)
 		}
 		b := func(x bool) string { return fmt.Sprintf("%v", x) }
 		w.P("/-- u_connection.go `configCoveringAdvertised`: `c.InitialStreamReceiveWindow = OUTER(c.InitialStreamReceiveWindow,")
@@ -389,8 +481,9 @@ func init() {
 		w.P("def coverStreamOuterIsMax : Bool := %s", b(sw.outer == "max"))
 		w.P("/-- … INNER is `max` -/")
 		w.P("def coverStreamInnerIsMax : Bool := %s", b(sw.inner == "max"))
-		w.P("/-- `c.InitialConnectionReceiveWindow = max(c.InitialConnectionReceiveWindow, uint64(p.InitialMaxData))` -/")
-		w.P("def coverConnIsMax : Bool := %s", b(cw.outer == "max"))
+		w.P("/-- `c.InitialConnectionReceiveWindow = …`: 0 `uint64(p.InitialMaxData)` (exactly what is advertised),")
+		w.P("    1 `max(c.InitialConnectionReceiveWindow, uint64(p.InitialMaxData))`, 2 `min(…)` -/")
+		w.P("def coverConnMode : Nat := %d", map[string]int{"id": 0, "max": 1, "min": 2}[cw.outer])
 		w.P("/-- `c.MaxStreamReceiveWindow = max(c.MaxStreamReceiveWindow, c.InitialStreamReceiveWindow)` and the same for the connection -/")
 		w.P("def coverMaxWindowsFollow : Bool := %s", b(msw.self && msw.outer == "max" && msw.other == "c.InitialStreamReceiveWindow" &&
 			mcw.self && mcw.outer == "max" && mcw.other == "c.InitialConnectionReceiveWindow"))
@@ -405,6 +498,123 @@ func init() {
 		})
 		w.P("/-- `newUClientConnection` runs `s.config = configCoveringAdvertised(s.config, params)` on the parameters it advertises -/")
 		w.P("def coverAppliedInUClient : Bool := %s", b(applied))
+
+		// u_connection.go uAdvertisedStreamData: which advertised parameter each struct field holds (the composite literal
+		// in newUClientConnection, keyed `field: params.InitialMaxStreamDataX`), and which field forStream returns for a
+		// unidirectional stream / a bidirectional stream opened by `pers` / by the peer
+		// (codes: 0 InitialMaxStreamDataBidiLocal, 1 InitialMaxStreamDataBidiRemote, 2 InitialMaxStreamDataUni, 9 unknown)
+		stored := map[string]int{}
+		storedOK := false
+		ast.Inspect(uf, func(n ast.Node) bool {
+			as, ok := n.(*ast.AssignStmt)
+			if !ok || len(as.Lhs) != 1 || len(as.Rhs) != 1 || exprText(as.Lhs[0]) != "s.uAdvertisedStreamData" {
+				return true
+			}
+			var cl *ast.CompositeLit
+			switch x := as.Rhs[0].(type) {
+			case *ast.UnaryExpr:
+				cl, _ = x.X.(*ast.CompositeLit)
+			case *ast.CompositeLit:
+				cl = x
+			}
+			if cl == nil {
+				return true
+			}
+			storedOK = true
+			for _, el := range cl.Elts {
+				kv, ok := el.(*ast.KeyValueExpr)
+				if !ok {
+					storedOK = false
+					continue
+				}
+				code := -1
+				for i, nme := range []string{"InitialMaxStreamDataBidiLocal", "InitialMaxStreamDataBidiRemote", "InitialMaxStreamDataUni"} {
+					if exprText(kv.Value) == "params."+nme {
+						code = i
+					}
+				}
+				if code < 0 {
+					storedOK = false
+					continue
+				}
+				stored[exprText(kv.Key)] = code
+			}
+			return true
+		})
+		var fs *ast.FuncDecl
+		for _, d := range uf.Decls {
+			if fd, ok := d.(*ast.FuncDecl); ok && fd.Name.Name == "forStream" && fd.Recv != nil && len(fd.Recv.List) == 1 &&
+				strings.HasSuffix(exprText2(fd.Recv.List[0].Type), "uAdvertisedStreamData") {
+				fs = fd
+			}
+		}
+		fsUni, fsOwn, fsPeer := 9, 9, 9
+		if fs != nil && fs.Body != nil && fs.Type.Params != nil && len(fs.Type.Params.List) == 2 &&
+			len(fs.Recv.List[0].Names) == 1 && len(fs.Type.Params.List[0].Names) == 1 && len(fs.Type.Params.List[1].Names) == 1 {
+			recv := fs.Recv.List[0].Names[0].Name
+			idN, persN := fs.Type.Params.List[0].Names[0].Name, fs.Type.Params.List[1].Names[0].Name
+			retField := func(st ast.Stmt) int {
+				rs, ok := st.(*ast.ReturnStmt)
+				if !ok || len(rs.Results) != 1 {
+					return 9
+				}
+				t := exprText(rs.Results[0])
+				if !strings.HasPrefix(t, recv+".") {
+					return 9
+				}
+				if c, ok := stored[strings.TrimPrefix(t, recv+".")]; ok {
+					return c
+				}
+				return 9
+			}
+			only := func(b *ast.BlockStmt) int {
+				if b == nil || len(b.List) != 1 {
+					return 9
+				}
+				return retField(b.List[0])
+			}
+			// `if id.Type() == protocol.StreamTypeUni { return a.U }; if id.InitiatedBy() == pers { return a.O }; return a.P`
+			// (the second test may also be the else-branch of the first, or carry its own else)
+			var scan func(list []ast.Stmt)
+			scan = func(list []ast.Stmt) {
+				for _, st := range list {
+					switch x := st.(type) {
+					case *ast.IfStmt:
+						switch exprText(x.Cond) {
+						case idN + ".Type() == protocol.StreamTypeUni":
+							fsUni = only(x.Body)
+							if eb, ok := x.Else.(*ast.BlockStmt); ok {
+								scan(eb.List)
+							} else if ei, ok := x.Else.(*ast.IfStmt); ok {
+								scan([]ast.Stmt{ei})
+							}
+						case idN + ".InitiatedBy() == " + persN:
+							fsOwn = only(x.Body)
+							if eb, ok := x.Else.(*ast.BlockStmt); ok {
+								fsPeer = only(eb)
+							}
+						default:
+							fsUni, fsOwn, fsPeer = 9, 9, 9
+							return
+						}
+					case *ast.ReturnStmt:
+						fsPeer = retField(x)
+					}
+				}
+			}
+			scan(fs.Body.List)
+		}
+		if specOverrideSeen(cf) && (!storedOK || fsUni == 9 || fsOwn == 9 || fsPeer == 9) {
+			return fmt.Errorf("uAdvertisedStreamData: newUClientConnection no longer stores `field: params.InitialMaxStreamDataX` for every field, or forStream no longer has the shape `if id.Type() == protocol.StreamTypeUni { return a.U }; if id.InitiatedBy() == pers { return a.O }; return a.P` (got stored=%v uni=%d own=%d peer=%d)", stored, fsUni, fsOwn, fsPeer)
+		}
+		w.P("/-- u_connection.go `uAdvertisedStreamData.forStream(id, pers)`: the advertised parameter returned for a unidirectional stream")
+		w.P("    (codes: 0 InitialMaxStreamDataBidiLocal, 1 InitialMaxStreamDataBidiRemote, 2 InitialMaxStreamDataUni; 9: there is no such method),")
+		w.P("    resolved through the `uAdvertisedStreamData{field: params.X}` literal of `newUClientConnection` -/")
+		w.P("def advForStreamUniField : Nat := %d", fsUni)
+		w.P("/-- … for a bidirectional stream with `id.InitiatedBy() == pers` (opened by this endpoint) -/")
+		w.P("def advForStreamOwnBidiField : Nat := %d", fsOwn)
+		w.P("/-- … for a bidirectional stream opened by the peer -/")
+		w.P("def advForStreamPeerBidiField : Nat := %d", fsPeer)
 		return nil
 	})
 }
@@ -427,6 +637,18 @@ func (c *Ctx) EmitRatConst(w *LeanFile, p *Pkg, goName string) error {
 	w.P("def %s_num : Nat := %s", goName, num.ExactString())
 	w.P("def %s_den : Nat := %s", goName, den.ExactString())
 	return nil
+}
+
+// specOverrideSeen: connection.go mentions Conn.uAdvertisedStreamData at all
+func specOverrideSeen(cf *ast.File) bool {
+	seen := false
+	ast.Inspect(cf, func(n ast.Node) bool {
+		if se, ok := n.(*ast.SelectorExpr); ok && se.Sel.Name == "uAdvertisedStreamData" {
+			seen = true
+		}
+		return true
+	})
+	return seen
 }
 
 func exprText2(e ast.Expr) string {
